@@ -10,6 +10,9 @@ from .extract import Extractor, ExtractError
 VERIF_FAIL_MSGS = [
     ("postcondition not satisfied", "post"),
     ("precondition not satisfied", "pre"),
+    ("unable to prove post-condition of closure", "post"),
+    ("unable to prove pre-condition of closure", "pre"),
+    ("unable to prove assertion", "assert"),
     ("assertion failed", "assert"),
     ("possible arithmetic underflow/overflow", "overflow"),
     ("possible division by zero", "divzero"),
